@@ -263,6 +263,46 @@ fn pure_level(rep: &mut Report, shard: usize, n: usize, thorough: bool, seed: u6
             }
         }
     }
+    if shard == 0 {
+        // directed lists: only neutral languages, unknown tags, extremes, repeats; and the boundary UUIDs
+        let lists: Vec<Vec<u16>> = vec![vec![0], vec![0, 0], vec![0, 0, 0, 0], vec![0, 1033], vec![1033, 0], vec![65535], vec![65535, 0, 1], vec![1024, 2048], vec![1033; 20]];
+        for codes in lists {
+            let langs: Vec<msi::Language> = codes.iter().map(|c| msi::Language::from_code(*c)).collect();
+            let v = V::from_msi(&msi::Value::from(&langs[..]));
+            let s = match &v {
+                V::Str(s) => s.clone(),
+                other => format!("<{}>", other.to_json()),
+            };
+            if !msi::Category::Language.validate(&s) || category_verdict("Language", &s) != Verdict::Valid {
+                rep.violation(
+                    "C07/value-from-languages".into(),
+                    format!("Value::from(&[Language]) for codes {:?} = {:?} is not valid for the Language category", codes, s),
+                    json!({"kind": "category", "category": "Language", "string": s}),
+                );
+            }
+            rep.case(Some(fnv(format!("langs-directed{:?}", codes).as_bytes())));
+        }
+        for tag in ["tlh", "xx-YY", "und", ""] {
+            let langs = [msi::Language::from_tag(tag)];
+            if let V::Str(s) = V::from_msi(&msi::Value::from(&langs[..])) {
+                if !msi::Category::Language.validate(&s) || category_verdict("Language", &s) != Verdict::Valid {
+                    rep.violation(
+                        "C07/value-from-languages".into(),
+                        format!("Value::from(&[Language::from_tag({:?})]) = {:?} is not valid for the Language category", tag, s),
+                        json!({"kind": "category", "category": "Language", "string": s}),
+                    );
+                }
+            }
+        }
+        for u in [0u128, u128::MAX, 1, 0xffff_ffff_0000_0000_0000_0000_0000_0000] {
+            let u = uuid::Uuid::from_u128(u);
+            if let V::Str(s) = V::from_msi(&msi::Value::from(u)) {
+                if !msi::Category::Guid.validate(&s) || category_verdict("GUID", &s) != Verdict::Valid {
+                    rep.violation("C07/value-from-uuid".into(), format!("Value::from({}) = {:?} is not valid for the GUID category", u, s), json!({"kind": "category", "category": "GUID", "string": s}));
+                }
+            }
+        }
+    }
     // column level: integers around every boundary, every type, with and without ranges
     let ranges: [Option<(i32, i32)>; 6] = [None, Some((0, 100)), Some((-32767, 32767)), Some((i32::MIN, i32::MAX)), Some((5, 5)), Some((10, -10))];
     let mut k = 0usize;
@@ -491,6 +531,45 @@ fn gate_level(rep: &mut Report, shard: usize, n: usize, thorough: bool, seed: u6
                     }
                 }
             }
+        }
+        // the same string twice in one row: in a column that takes any string and in the tested column
+        // (each value is judged for the column it is in)
+        let t2 = format!("{}x", tname);
+        let cols2 = vec![msi::Column::build("K").primary_key().int32(), msi::Column::build("A").nullable().string(0), def.to_msi()];
+        if pkg.create_table(t2.clone(), cols2).is_ok() {
+            let mut key2 = 0i32;
+            for v in vals.iter().filter(|v| matches!(v, V::Str(_))) {
+                let want = ref_valid(def, v);
+                if want == Verdict::Unspecified {
+                    continue;
+                }
+                key2 += 1;
+                let r = guarded(|| pkg.insert_rows(msi::Insert::into(t2.clone()).row(vec![msi::Value::Int(key2), v.to_msi(), v.to_msi()])));
+                rep.count("gate_inserts_repeated_string");
+                match r {
+                    Err(p) => {
+                        rep.violation(
+                            format!("C07/insert-panic/{}", p.signature()),
+                            format!("insert of a row holding {} twice (free column, then column {}) panicked: {}", v.to_json(), def.to_json(), p.message),
+                            json!({"kind": "gate", "column": def.to_json(), "value": v.to_json()}),
+                        );
+                        return;
+                    }
+                    Ok(res) => {
+                        if !want.admits(res.is_ok()) {
+                            rep.violation(
+                                format!("C07/insert-gate-repeated-string/{}/{}", def.category.unwrap_or(ct_class(def.ty)), if res.is_ok() { "accepted-invalid" } else { "refused-valid" }),
+                                format!("insert of a row holding {} in a free string column and again in column {}: {} but the value is {:?} for that column", v.to_json(), def.to_json(), if res.is_ok() { "accepted" } else { "refused" }, want),
+                                json!({"kind": "gate", "column": def.to_json(), "value": v.to_json()}),
+                            );
+                        }
+                    }
+                }
+                if key2 % 150 == 0 {
+                    let _ = pkg.delete_rows(msi::Delete::from(t2.clone()));
+                }
+            }
+            let _ = pkg.drop_table(&t2);
         }
         // and on key columns: null / invalid values assigned to a nullable and a non-nullable key
         let _ = pkg.drop_table(&tname);
